@@ -19,7 +19,7 @@ def one(args):
         mod, ctx = analyse(prop, "/repo", "quick", sources=src)
     except Exception as ex:
         return diff, prop, [("CRASH", "", type(ex).__name__, str(ex)[:200])]
-    return diff, prop, [(r.status, r.rule, r.construct[:140], r.msg[:200]) for r in added(prop, ctx.results) if r.status in (VIOLATION, UNKNOWN)]
+    return diff, prop, [(r.status, r.rule, r.construct[:140], r.msg[:200]) for r in added(prop, ctx.results, diff) if r.status in (VIOLATION, UNKNOWN)]
 
 
 if __name__ == "__main__":
